@@ -303,10 +303,11 @@ func runCheck(repo, id, tier string) int {
 	if tier == "thorough" {
 		quickSec, fullSec = 10, 600
 	}
-	solveAll(obls, work, 14, quickSec, fullSec)
-
-	// ---- bounded stand-ins and structural checks ---------------------------------------------
-	extra := runExtras(eng, id, tier, seed, work)
+	// bounded stand-ins and structural checks run concurrently with the solvers
+	extraCh := make(chan []extraResult, 1)
+	go func() { extraCh <- runExtras(eng, id, tier, seed, work) }()
+	solveAll(obls, work, 12, quickSec, fullSec)
+	extra := <-extraCh
 
 	// ---- verdicts -----------------------------------------------------------------------------------
 	known := loadKnown()
@@ -317,7 +318,12 @@ func runCheck(repo, id, tier string) int {
 	var samples []interface{}
 	solverTime := 0.0
 	bySolver := map[string]int{}
+	reported := map[string]bool{}
 	fail := func(name, reason, detail, smt string, hasModel bool) {
+		if reported[name] {
+			return
+		}
+		reported[name] = true
 		for _, k := range known.Findings {
 			if k.Property == id && k.Status != "fixed" {
 				if ok, _ := regexp.MatchString(k.Obligation, name); ok {
